@@ -334,10 +334,17 @@ type UCase struct {
 	// restrictions, revision 2 has them; 2 = the other way round.  What is observed after the second
 	// Process must be the answer for the parent of revision 2.
 	History int `json:"history,omitempty"`
+	// Sib: the last restriction stands next to another substatement (siblings.go: name of the sibling,
+	// Pos 1 = sibling before / 2 = after, Host = where the type statement stands).
+	Sib  string `json:"sib,omitempty"`
+	Pos  int    `json:"pos,omitempty"`
+	Host int    `json:"host,omitempty"`
 }
 
 func (u UCase) placement() string {
 	switch {
+	case u.Sib != "":
+		return fmt.Sprintf("sibling %s pos %d host %d", u.Sib, u.Pos, u.Host)
 	case u.Deviate != 0:
 		return fmt.Sprintf("deviate %d", u.Deviate)
 	case u.History != 0:
@@ -357,6 +364,8 @@ func (u UCase) expectCase() Case {
 
 func run1(u UCase) string {
 	switch {
+	case u.Sib != "":
+		return runSibling1(u)
 	case u.Deviate != 0:
 		return runDeviate([]UCase{u})[0]
 	case u.History != 0:
@@ -869,6 +878,13 @@ func genUnionCorpus() []Case {
 	addCase(&cs, "int", "uint8", 0, "7..10", "min..5")
 	addCase(&cs, "int", "uint8", 0, "0..10", "min..5")
 	addCase(&cs, "int", "int32", 0, "-5..5", "-2..2", "min..0|max")
+	// witnesses of C10-k22 (errors of range / length dropped when the type statement also carries a
+	// posix-pattern extension): in a gap of the parent, wider than the parent
+	addCase(&cs, "int", "uint8", 0, "1..4 | 10..20", "5..9")
+	addCase(&cs, "len", "nil", 0, "1..8", "1..64")
+	addCase(&cs, "len", "nil", 0, "1..2..3")
+	addCase(&cs, "dec", "dec", 1, "1..0")
+	addCase(&cs, "dec", "dec", 18, "-9.3..0")
 	return cs
 }
 
@@ -1928,6 +1944,9 @@ func main() {
 		{"malformed", genMalformed(f.Rand(3), nr), q(1, 2)},
 	}
 	placedCases, placedRejected := map[string]int64{}, map[string]int64{}
+	sibRot, sibStride := 0, q(2, 1)
+	sibPerName := map[string]int64{}
+	sibSeconds, sibFatal := 0.0, int64(0)
 	distinct := lib.NewDistinct()
 	var nontriv, evals int64
 	okSteps, errSteps := int64(0), int64(0)
@@ -1999,6 +2018,7 @@ func main() {
 		}
 		// the last step once more in other placements: union member, replacement type of a deviation,
 		// union member below an imported typedef whose module is replaced by a newer revision between two runs
+		var scs []UCase
 		if sec.stride != 0 {
 			var ucs, dcs, hcs []UCase
 			sel, selH := 0, 0
@@ -2011,6 +2031,16 @@ func main() {
 					continue
 				}
 				r := sel / maxInt(sec.stride, 1)
+				// next to every other substatement (siblings.go): all combinations for the corpus, one
+				// combination per selected chain elsewhere (walking through the list)
+				if combos := sibCombos(c); sec.stride < 0 {
+					for _, cb := range combos {
+						scs = append(scs, UCase{Case: c, Sib: cb.Sib, Pos: cb.Pos, Host: cb.Host})
+					}
+				} else if sibRot++; sibRot%sibStride == 0 {
+					cb := combos[(sibRot/sibStride)%len(combos)]
+					scs = append(scs, UCase{Case: c, Sib: cb.Sib, Pos: cb.Pos, Host: cb.Host})
+				}
 				if sec.stride < 0 {
 					for v := 1; v <= 4; v++ {
 						ucs = append(ucs, UCase{Case: c, Union: v})
@@ -2123,6 +2153,32 @@ func main() {
 				res.Distribution[grp.name+"_cases_"+sec.name] = len(pcs)
 			}
 		}
+		if len(scs) > 0 {
+			tS := time.Now()
+			goIdx := map[string]int{}
+			for _, pc := range scs {
+				goIdx[pc.Case.key()] = -1
+			}
+			for i, c := range cases {
+				if k := c.key(); goIdx[k] == -1 {
+					goIdx[k] = i
+				}
+			}
+			sf, rejected, fatal := siblingGroup(f, sec.name, scs, goIdx, ans, goOuts)
+			sibSeconds += time.Since(tS).Seconds()
+			found = append(found, sf...)
+			for _, pc := range scs {
+				if distinct.Add(pc.placement() + " " + pc.key()) {
+					nontriv++
+				}
+				sibPerName[pc.Sib]++
+			}
+			placedCases["sibling"] += int64(len(scs))
+			placedRejected["sibling"] += rejected
+			sibFatal += fatal
+			evals += int64(len(scs))
+			res.Distribution["sibling_cases_"+sec.name] = len(scs)
+		}
 		sort.SliceStable(found, func(a, b int) bool {
 			return found[a].SpecVerdict == "violates" && found[b].SpecVerdict != "violates"
 		})
@@ -2210,6 +2266,12 @@ func main() {
 		res.Distribution[k+"_placements"] = n
 		res.Distribution[k+"_placements_rejected"] = placedRejected[k]
 	}
+	res.Distribution["seconds_sibling_placements"] = float64(int(sibSeconds*10)) / 10
+	res.Distribution["sibling_placements_with_a_sibling_that_stops_the_resolution"] = sibFatal
+	res.Distribution["sibling_placements_with_such_a_sibling_accepted"] = sibFatalAccepted
+	for name, n := range sibPerName {
+		res.Distribution["sibling_"+name] = n
+	}
 	for d, n := range depthHist {
 		res.Distribution[fmt.Sprintf("chains_with_%d_accepted_steps", d)] = n
 	}
@@ -2279,6 +2341,43 @@ func replay(f *lib.Flags, d *lib.Driver) {
 	nz := func(k string) bool {
 		v, ok := probe[k].(float64)
 		return ok && v != 0
+	}
+	if sb, _ := probe["sib"].(string); sb != "" {
+		var uc UCase
+		if err := json.Unmarshal(p.Disagreement.Replay, &uc); err != nil {
+			lib.Fatal("%v", err)
+		}
+		res := lib.NewResult("C10", f)
+		initDecBases(d, res)
+		chain := runGo([]Case{uc.Case}, 1)[0]
+		par := parentOfLast(uc.Case, chain)
+		a, _ := d.Ask(uc.Case.request())
+		g := run1(uc)
+		in := describe(uc.Case)
+		in["placement"] = uc.placement()
+		_, mText, _, _ := sibTexts(uc)
+		fmt.Printf("input: %v\nmodule m:\n%s", in, mText)
+		if par == "" {
+			fmt.Printf("go (%s): %s\nspec:  not evaluated (an earlier step of the chain fails)\n", sibPlacementText(uc), g)
+			os.Exit(1)
+		}
+		if sd := sibByName[uc.Sib]; sd != nil && sd.Fatal {
+			sv, _ := d.Ask(fmt.Sprintf("spec.step %s %s %d %s err", par, uc.Mode, uc.Fd, uc.Steps[len(uc.Steps)-1]))
+			fmt.Printf("go (%s): %s\nspec on rejecting the restriction: %s\n", sibPlacementText(uc), g, sv)
+			if g != "rejected" && !(g == "accepted" && sv != "holds") {
+				os.Exit(1)
+			}
+			return
+		}
+		sv := "go outcome could not be interpreted"
+		if r := unionSpecRequest(uc, par, g); r != "" {
+			sv, _ = d.Ask(r)
+		}
+		fmt.Printf("go (%s): %s\nmodel (same restriction, same parent): %s\nspec:  %s\n", sibPlacementText(uc), g, lastStep(a), sv)
+		if g != lastStep(a) || sv != "holds" {
+			os.Exit(1)
+		}
+		return
 	}
 	if nz("union") || nz("deviate") || nz("history") {
 		var uc UCase
